@@ -537,3 +537,70 @@ def new_private_helpers(cur_tree, ref_tree):
     priv = lambda n: n.startswith('_') and not (n.startswith('__') and n.endswith('__'))
     return ({k: v for k, v in cf.items() if k not in rf and priv(k)},
             {k: v for k, v in cm.items() if k not in rm and priv(k[1])})
+
+
+
+def _dispatch_sites(fn):
+    """Call through a function-valued local: a statement list holding `if c: ...; f = h1 [elif ...] else: ...; f = h2`
+    immediately followed by the single use of `f`, the statement `f(args)` / `x = f(args)` - yields
+    (block, position of the if, f, [(arm statement list, helper name)])."""
+    def arms_of(s):
+        out = []
+        while True:
+            out.append(s.body)
+            if len(s.orelse) == 1 and isinstance(s.orelse[0], ast.If):
+                s = s.orelse[0]
+                continue
+            if not s.orelse:
+                return None
+            out.append(s.orelse)
+            return out
+    for node in ast.walk(fn):
+        for field in ('body', 'orelse', 'finalbody'):
+            blk = getattr(node, field, None)
+            if not isinstance(blk, list):
+                continue
+            for k in range(len(blk) - 1):
+                s, c = blk[k], blk[k + 1]
+                if not isinstance(s, ast.If):
+                    continue
+                call = c.value if isinstance(c, (ast.Expr, ast.Assign)) else None
+                if not (isinstance(call, ast.Call) and isinstance(call.func, ast.Name)):
+                    continue
+                f = call.func.id
+                arms = arms_of(s)
+                if arms is None:
+                    continue
+                hs = []
+                for a in arms:
+                    last = a[-1] if a else None
+                    if isinstance(last, ast.Assign) and len(last.targets) == 1 and isinstance(last.targets[0], ast.Name) \
+                            and last.targets[0].id == f and isinstance(last.value, ast.Name):
+                        hs.append((a, last.value.id))
+                uses = [n for n in ast.walk(fn) if isinstance(n, ast.Name) and n.id == f]
+                if len(hs) == len(arms) and len(uses) == len(arms) + 1:
+                    yield blk, k, f, hs
+
+
+def devirtualise(fn, helper_names):
+    """Pre-pass of the inliner (behaviour preserving): a call through a local that every arm of the immediately preceding
+    if/else binds, as its last statement, to one of the new private helpers is moved into the arms as a direct call - the test
+    is evaluated first, then the arguments, exactly as before, and the local has no other use.  Returns the helpers made
+    directly called (the Inliner then treats them like any statement-level call)."""
+    used = set()
+    for blk, k, f, hs in list(_dispatch_sites(fn)):
+        if not all(h in helper_names for _, h in hs):
+            continue
+        c = blk[k + 1]
+        if any(isinstance(n, ast.Name) and n.id == f for a in list(c.value.args) + [kw.value for kw in c.value.keywords]
+               for n in ast.walk(a)):
+            continue
+        for arm, h in hs:
+            d = copy.deepcopy(c)
+            d.value.func = ast.copy_location(ast.Name(id=h, ctx=ast.Load()), d.value.func)
+            arm[-1] = d
+            used.add(h)
+        del blk[k + 1]
+    if used:
+        ast.fix_missing_locations(fn)
+    return used
